@@ -212,7 +212,9 @@ Print Assumptions C05_interface_iff.
 (** with_model_type is propagated consistently: there is a setting per class (after
     propagation; [None] = unset, rendered as false) such that a class takes over the
     setting of each base that has one and its own declared one, and has a setting only if
-    it declares it or a base has it. (Conflicting settings are a reported error.) *)
+    it declares it or a base has it. (Conflicting settings are a reported error.)
+    [decl_wmt c] is the value declared by [@serialization(with_model_type=v)]; a class
+    without the decorator and a class with an empty [@serialization()] both declare nothing. *)
 Theorem C05_model_type_consistent : forall m r, translate prims m = Ok r ->
   exists setting : name -> option bool,
     forall c, In c m ->
@@ -220,9 +222,9 @@ Theorem C05_model_type_consistent : forall m r, translate prims m = Ok r ->
         /\ (i_is_cp ci = false ->
               i_wmt ci = Some (match setting (c_name c) with Some v => v | None => false end)
               /\ (forall b v, In b (c_bases c) -> setting b = Some v -> setting (c_name c) = Some v)
-              /\ (forall v, c_wmt c = Some v -> setting (c_name c) = Some v)
+              /\ (forall v, decl_wmt c = Some v -> setting (c_name c) = Some v)
               /\ (forall v, setting (c_name c) = Some v ->
-                    c_wmt c = Some v \/ exists b, In b (c_bases c) /\ setting b = Some v)).
+                    decl_wmt c = Some v \/ exists b, In b (c_bases c) /\ setting b = Some v)).
 Proof. exact (model_type_consistent_acc prims). Qed.
 Print Assumptions C05_model_type_consistent.
 
@@ -235,7 +237,7 @@ Theorem C05_model_type_closed : forall m r, translate prims m = Ok r ->
       exists ci, class_ir r (c_name c) = Some ci /\ skipped (c_name c) = i_is_cp ci
         /\ (i_is_cp ci = false ->
               (i_wmt ci = Some true <->
-               exists a, In a m /\ reach prims m skipped (c_name c) (c_name a) /\ c_wmt a = Some true)).
+               exists a, In a m /\ reach prims m skipped (c_name c) (c_name a) /\ decl_wmt a = Some true)).
 Proof. exact (model_type_closed_acc prims). Qed.
 Print Assumptions C05_model_type_closed.
 
@@ -293,13 +295,16 @@ Example C05_diamond_accepted : exists r, translate prims diamond = Ok r.
 Proof. eexists. vm_compute. reflexivity. Qed.
 Print Assumptions C05_diamond_accepted.
 
-(** with_model_type set in the middle of a chain A; B(A); C(B): A stays false, B and C true. *)
-Definition plain (n : String.string) (abs : bool) (bases : list String.string) (w : option bool) : cls :=
+(** with_model_type set in the middle of a chain A; B(A); C(B) with an empty [@serialization()];
+    D(C): A stays false, B, C and D true. *)
+Definition plain (n : String.string) (abs : bool) (bases : list String.string)
+           (w : option (option bool)) : cls :=
   {| c_name := s2l n; c_abstract := abs; c_bases := map s2l bases; c_props := []; c_invs := [];
      c_methods := []; c_ctor := None; c_wmt := w |}.
 Example C05_model_type_chain :
-  match translate prims [plain "A" true [] None; plain "B" true ["A"] (Some true); plain "C" false ["B"] None] with
-  | Ok r => map i_wmt (r_classes r) = [Some false; Some true; Some true]
+  match translate prims [plain "A" true [] None; plain "B" true ["A"] (Some (Some true));
+                         plain "C" false ["B"] (Some None); plain "D" false ["C"] None] with
+  | Ok r => map i_wmt (r_classes r) = [Some false; Some true; Some true; Some true]
   | _ => False
   end.
 Proof. vm_compute. reflexivity. Qed.
